@@ -48,13 +48,16 @@ NoSel == [some |-> FALSE, v |-> <<>>]
 Some(s) == [some |-> TRUE, v |-> s]
 RangeS(s) == {s[i] : i \in 1..Len(s)}
 
-Refresh(g, s)  == (s % g.freq = 0 /\ s > g.start) \/ s = g.start
+\* precondition_frequency lives in param_groups and is read at every step: the period in force is st.hy.freq (initially g.freq)
+RefreshF(g, f, s) == (s % f = 0 /\ s > g.start) \/ s = g.start
+Refresh(g, s)  == RefreshF(g, g.freq, s)
 UseGraft(g, s) == s < g.start /\ g.graft
 
 ---------------------------------------------------------------------------
 \* hyperparameters that may be changed in param_groups between steps: index 0 means the value 0.0,
 \* indices >= 1 are distinct non-zero values (the harness owns the table of concrete numbers)
-InitHyper(g) == [mom |-> IF g.hasMom THEN 1 ELSE 0, b1 |-> IF g.hasFilt THEN 1 ELSE 0, wd |-> g.wd0, lr |-> 1]
+InitHyper(g) == [mom |-> IF g.hasMom THEN 1 ELSE 0, b1 |-> IF g.hasFilt THEN 1 ELSE 0, wd |-> g.wd0, lr |-> 1,
+                 freq |-> g.freq]          \* freq is the number itself, not an index
 
 InitG(g) ==
   [ step |-> 0,
@@ -168,7 +171,7 @@ GroupStep(g, st0, present, outc) ==
      THEN [st |-> stA, raised |-> "none", stepped |-> FALSE, obs |-> mkobs(stA, FALSE, FALSE, FALSE, <<>>, "none")]
      ELSE
      LET s == stA.step + 1
-         refresh == Refresh(g, s)
+         refresh == RefreshF(g, stA.hy.freq, s)
          usegraft == UseGraft(g, s)
          stB == [stA EXCEPT !.step = s]
          \* 5./6. L2 regularisation reads mP; factor update zips gradients with mK (zip strict)
@@ -223,7 +226,7 @@ StepChecks(g, pre, r, present, outc) ==
   LET post == r.st
       act  == Active(g, present)
       s    == post.step
-      refreshed == r.stepped /\ Refresh(g, s)
+      refreshed == r.stepped /\ RefreshF(g, pre.hy.freq, s)
       processed == {r.obs.calls[i][1] : i \in 1..Len(r.obs.calls)}
   IN
   \* C04 StepCounter: advances by one iff some parameter of the group has a gradient
